@@ -193,14 +193,14 @@ def txnPlace (w : World) (t : Txn) (oid : Nat) (marketVersion : Option Int) (exe
   match refusal with
   | some r => (w, t, .refused r)
   | none =>
+    if (w.market! t.market).blotter.contains oid then (w, t, .error .alreadyPlaced)
+    else
     let book := ((w.market! t.market).book).getD {}
     -- order.place(publish_time, market_version, async)
     let w := w.modifyOrder oid fun o => { o with publishTime := some book.pt, marketVersion := marketVersion }
     let w := w.orderPlacing oid
     let o := w.order! oid
     let newTrade := !((w.market! t.market).blotter.any fun x => (w.order! x).trade = o.trade)
-    if (w.market! t.market).blotter.contains oid then (w, t, .error .alreadyPlaced)
-    else
       let w := w.blotterAdd t.market oid
       let w := if newTrade then w.emit (.tradeEvent o.trade) else w
       if execute then
